@@ -126,6 +126,7 @@ struct Region {
     }
     char* place(size_t nbytes, int m, char pos) const {
         if (pos == 'H') return lo + m;
+        if (pos == 'F') return hi - nbytes;
         uintptr_t s = (uintptr_t)(hi - nbytes); s -= ((s - (uintptr_t)m) & 63);
         return (char*)s;
     }
@@ -171,22 +172,24 @@ struct Report {
 // run `f(T* const* p)` with NOPS operands of element type T at every placement
 template<class T, class F>
 static Report sweep(const Operand* ops, int nops, F f, unsigned seed, unsigned flags = 0, size_t require_align = 1) {
-    const bool expect_exception = flags & 1u, raw = flags & 2u;
+    const bool expect_exception = flags & 1u, raw = flags & 2u, flushonly = flags & 4u;
     Report r;
     T* p[MAXOPS]; size_t nb[MAXOPS];
     static unsigned char snap[RWBYTES];
     for (int i = 0; i < nops; ++i) { g_reg[i].init(); nb[i] = ops[i].n * sizeof(T); if (nb[i] + 2 * HALO + 64 > RWBYTES) { std::fprintf(stderr, "operand too large\n"); std::abort(); } }
     bool have_ref = false; uint64_t ref_digest = 0;
     const int step = (int)alignof(T) < 1 ? 1 : (int)alignof(T);
-    for (int pi = 0; pi < 2; ++pi) {
-        const char pos = pi ? 'H' : 'T';
-        for (int m = 0; m < 64; m += step) for (int salt = 0; salt < 2; ++salt) {
+    // pos 'F': EVERY operand ends exactly at the high guard of its own region at the same time (each with the misalignment its size gives)
+    for (int pi = 0; pi < 3; ++pi) {
+        const char pos = pi == 0 ? 'T' : (pi == 1 ? 'H' : 'F');
+        for (int m = 0; m < (pos == 'F' ? 1 : 64); m += step) for (int salt = 0; salt < 2; ++salt) {
             if (require_align > 1 && (m % (int)require_align)) continue;      // owning tensors: library-aligned placements only
+            if (flushonly && !(pos == 'F' || (pos == 'H' && m == 0) || (pos == 'T' && m == 4 * step))) continue;
             // place and fill
             size_t snapoff[MAXOPS]; size_t so = 0;
             for (int i = 0; i < nops; ++i) {
                 // the output operand takes the opposite position when salt = 1
-                const char ipos = (salt == 1 && ops[i].role == OUT) ? (pos == 'H' ? 'T' : 'H') : pos;
+                const char ipos = (salt == 1 && ops[i].role == OUT && pos != 'F') ? (pos == 'H' ? 'T' : 'H') : pos;
                 char* q = g_reg[i].place(nb[i], m, ipos);
                 p[i] = (T*)q;
                 char* a = q - HALO < g_reg[i].lo ? g_reg[i].lo : q - HALO;
@@ -207,7 +210,8 @@ static Report sweep(const Operand* ops, int nops, F f, unsigned seed, unsigned f
             g_count = 0;
             ++r.runs;
             char more[160];
-            if (rc == 1 && raw && g_fault_addr == nullptr && (m % VG_LIBALIGN) != 0) { ++r.alignreq; continue; }
+            bool anymis = false; for (int i = 0; i < nops; ++i) if ((uintptr_t)p[i] % VG_LIBALIGN) anymis = true;
+            if (rc == 1 && raw && g_fault_addr == nullptr && anymis) { ++r.alignreq; continue; }
             if (rc == 1) {
                 ++r.fault;
                 int wi = -1; for (int i = 0; i < nops; ++i) if (g_reg[i].owns(g_fault_addr)) wi = i;
